@@ -149,7 +149,7 @@ static Lit decode(Src &s) {
         switch (s.range(0, 2)) { case 0: break; case 1: for (auto &ch : t) ch = (char) tolower(ch); break; default: for (auto &ch : t) if (s.coin()) ch = (char) tolower(ch); }
         l.text = t; l.canon = t;
     }
-    if (!s.prob(3, 4)) l.prelude = (int) s.range(1, 5);
+    if (s.prob(1, 4)) l.prelude = (int) s.range(1, 5);
     return l;
 }
 
